@@ -187,3 +187,24 @@ func sends[T any](ch chan T) int { return 0 }
 //@ func Association.getOrCreateStream
 //@   ensures#exists-afterwards{C07,C14} result != nil ==> a.streams[streamIdentifier] == result
 //@   ensures#never-refused{TRUSTED} result != nil
+
+// ---- C14: stream reset ordered after the stream's data ----
+
+//@ func Association.sendResetRequest
+//@   at call pendingQueue.push assert#reset-marker-queued-behind-the-data{C14} a.state == established && arg1 != nil && arg1.userData == nil &&
+//@      arg1.streamIdentifier == streamIdentifier
+//@   ensures#refused-outside-established{C14,C18} old(a.state) != established ==> result != nil && a.pendingQueue.nChunks == old(a.pendingQueue.nChunks)
+
+//@ func Association.gatherOutboundDataAndReconfigPackets
+//@   at store paramOutgoingResetRequest.senderLastTSN assert#covers-every-tsn-assigned-so-far{C14} stored == a.myNextTSN-1
+//@   at store paramOutgoingResetRequest.streamIdentifiers assert#streams-whose-marker-left-the-queue{C14} sameSlice(stored, sisToReset)
+
+//@ func Association.resetStreamsIfAny
+//@   at call Stream.onInboundStreamReset assert#only-after-all-earlier-data-arrived{C14}
+//@      resetRequest.senderLastTSN == a.payloadQueue.cumulativeTSN || specSerLT32(resetRequest.senderLastTSN, a.payloadQueue.cumulativeTSN)
+//@   at store paramReconfigResponse.result assert#in-progress-until-then{C14}
+//@      stored == ite(resetRequest.senderLastTSN == a.payloadQueue.cumulativeTSN || specSerLT32(resetRequest.senderLastTSN, a.payloadQueue.cumulativeTSN), reconfigResultSuccessPerformed, reconfigResultInProgress)
+//@   loop 1 atend assert#reset-stream-is-unregistered{C14} !ok || a.streams[s.streamIdentifier] == nil
+
+//@ func Association.resetOutgoingStreamSequenceNumbers
+//@   at call Stream.resetOutgoingStreamSequenceNumbers assert#only-streams-of-the-acknowledged-request{C14} reconfig != nil && ok
